@@ -1,6 +1,7 @@
 #!/bin/sh
 # locked `make` in coq/ (regenerates _CoqProject/Makefile when the file list changed)
 cd "$(dirname "$0")/../coq"
+ulimit -s unlimited 2>/dev/null || true
 mkdir -p ../work
 exec flock ../work/.build.lock sh -c '
   (echo "-Q . SV"; find . -name "*.v" | sed "s|^\./||" | grep -viE "(^|/)(tmp|dbg|debug|scratch|wip_|test_)|tmp\.v$|dbg\.v$" | sort) > _CoqProject.new
